@@ -15,17 +15,19 @@ go test -vet=off -count=1 $(go list ./... | grep -v cmd/templ/lspcmd$) > "$W/tes
 (cd runtime/fuzzing && go test -vet=off -count=1 ./... >> "$W/test.log" 2>&1) || t=1
 # place the demonstration: README.txt (in demo/ or next to it) names the target paths in various ways
 README="$D/demo/README.txt"; [ -f "$README" ] || README="$D/README.txt"
+# placeholders such as "<repo root>/" or "<repo>/" are not part of a path
+if [ -f "$README" ]; then sed -E 's#<[^>]*>/?##g' "$README" > "$W/README.clean"; README="$W/README.clean"; fi
 placed=0
 while IFS= read -r f; do
   base=$(basename "$f")
   rel="${f#$D/demo/}"
   # 1. "file -> path" lines  2. any repository-relative path ending in the file name  3. the relative path inside demo/  4. repository root
   dst=$(grep -E "^\s*\S*$base\s+->\s+\S+" "$README" 2>/dev/null | head -1 | sed -E 's/.*->//' | grep -oE "[^ ]*$base" | tail -1)
-  if [ -z "$dst" ]; then dst=$(grep -oE "[A-Za-z0-9_./-]+/$base" "$README" 2>/dev/null | grep -v "^/tmp" | sed -E 's#^(\./)?demo/##' | grep "/" | head -1); fi
+  if [ -z "$dst" ]; then dst=$(grep -oE "[A-Za-z0-9_./-]+/$base" "$README" 2>/dev/null | grep -v "^/tmp" | sed -E 's#^(\./)?(change[0-9]+/)?demo/##' | grep "/" | head -1); fi
   if [ -z "$dst" ] && [ "$rel" != "$base" ]; then
     # a directory inside demo/: the README names where that directory goes
     top="${rel%%/*}"
-    parent=$(grep -oE "[A-Za-z0-9_./-]+/$top\b" "$README" 2>/dev/null | grep -v "^/tmp" | sed -E 's#^(\./)?demo/##' | grep "/" | head -1)
+    parent=$(grep -oE "[A-Za-z0-9_./-]+/$top\b" "$README" 2>/dev/null | grep -v "^/tmp" | sed -E 's#^(\./)?(change[0-9]+/)?demo/##' | grep "/" | head -1)
     if [ -n "$parent" ]; then dst="${parent%/$top}/$rel"; else dst="$rel"; fi
   fi
   if [ -z "$dst" ]; then dst="$base"; fi
